@@ -41,24 +41,24 @@ def make_resolver(files):
     return res
 
 
-def transform(xsl, xml, params=None, files=None, messages=None, full=False):
+def transform(xsl, xml, params=None, files=None, messages=None, full=False, doc_uri='mem:/doc.xml'):
     files = dict(files or {})
     res = make_resolver(files)
     if not full:
         xsl = sheet(xsl)
     s = X.compile_stylesheet(xsl, 'mem:/main.xsl', res)
     files.setdefault('mem:/main.xsl', xsl)
-    d = model.parse_document(xml, 'mem:/doc.xml')
+    d = model.parse_document(xml, doc_uri)
     return X.transform(s, d, params, res, messages)
 
 
 def check(label, xsl, xml, expected, params=None, files=None, full=False, recoveries=None,
-          messages=None):
+          messages=None, doc_uri='mem:/doc.xml'):
     """expected: XML fragment of the result tree's children."""
     COUNT[0] += 1
     try:
         msgs = []
-        r = transform(xsl, xml, params, files, msgs, full)
+        r = transform(xsl, xml, params, files, msgs, full, doc_uri)
         got = X.dump(r)
     except Exception as e:                                       # noqa
         fail('%s: raised %s: %s' % (label, type(e).__name__, e))
@@ -423,6 +423,366 @@ def test_instructions():
                 '<xsl:stylesheet version="1.0" %s xmlns:x="urn:x" extension-element-prefixes="x"/>' % XSLNS, full=True)
     check_error('unsupported-simplified', XSLTUnsupported, '<o xsl:version="1.0" %s/>' % XSLNS, full=True)
     check('doe-no', T('/', '<xsl:value-of select="1" disable-output-escaping="no"/>'), xml, '1')
+
+
+def test_sort():
+    # Rec section 10 example
+    emp = ('<employees><employee><name><given>James</given><family>Clark</family></name></employee>'
+           '<employee><name><given>Zoe</given><family>Adams</family></name></employee>'
+           '<employee><name><given>Anna</given><family>Clark</family></name></employee></employees>')
+    check('rec-10', T('employees', '<ul><xsl:apply-templates select="employee"><xsl:sort select="name/family"/><xsl:sort select="name/given"/></xsl:apply-templates></ul>')
+          + T('employee', '<li><xsl:value-of select="name/given"/><xsl:text> </xsl:text><xsl:value-of select="name/family"/></li>'),
+          emp, '<ul><li>Zoe Adams</li><li>Anna Clark</li><li>James Clark</li></ul>')
+    xml = '<l><i k="b" n="2">x1</i><i k="a" n="10">x2</i><i k="b" n="x">x3</i><i k="a" n="9">x4</i></l>'
+
+    def fe(sorts, body='<xsl:value-of select="."/>'):
+        return T('l', '<xsl:for-each select="i">%s%s</xsl:for-each>' % (sorts, body))
+    check('sort-text-stable', fe('<xsl:sort select="@k"/>'), xml, 'x2x4x1x3')
+    check('sort-desc-stable', fe('<xsl:sort select="@k" order="descending"/>'), xml, 'x1x3x2x4')
+    check('sort-number-nan-first', fe('<xsl:sort select="@n" data-type="number"/>'), xml, 'x3x1x4x2')
+    check('sort-text-digits', fe('<xsl:sort select="@n"/>'), xml, 'x2x1x4x3')
+    check('sort-number-desc', fe('<xsl:sort select="@n" data-type="number" order="descending"/>'), xml, 'x2x4x1x3')
+    check('sort-two-keys', fe('<xsl:sort select="@k"/><xsl:sort select="@n" data-type="number" order="descending"/>'), xml, 'x2x4x1x3')
+    check('sort-two-keys-b', fe('<xsl:sort select="@k" order="descending"/><xsl:sort select="@n" data-type="number"/>'), xml, 'x3x1x4x2')
+    check('sort-position-last', fe('<xsl:sort select="@k"/>', '[<xsl:value-of select="."/>:<xsl:value-of select="position()"/>/<xsl:value-of select="last()"/>]'),
+          xml, '[x2:1/4][x4:2/4][x1:3/4][x3:4/4]')
+    # position() inside the key expression = position in the unsorted list
+    check('sort-key-position', fe('<xsl:sort select="position()" data-type="number" order="descending"/>'), xml, 'x4x3x2x1')
+    check('sort-key-last', fe('<xsl:sort select="last() - position()" data-type="number"/>'), xml, 'x4x3x2x1')
+    check('sort-default-select', fe('<xsl:sort order="descending"/>'), xml, 'x4x3x2x1')
+    check('sort-avt', '<xsl:param name="o" select="\'descending\'"/><xsl:param name="t" select="\'number\'"/>'
+          + fe('<xsl:sort select="@n" order="{$o}" data-type="{$t}"/>'), xml, 'x2x4x1x3')
+    # current() inside a sort key is the node being sorted
+    check('sort-current', fe('<xsl:sort select="current()/@n" data-type="number"/>'), xml, 'x3x1x4x2')
+    # apply-templates with sort: position()/last() refer to the sorted list
+    check('apply-sort', T('l', '<xsl:apply-templates select="i"><xsl:sort select="@n" data-type="number"/></xsl:apply-templates>')
+          + T('i', '[<xsl:value-of select="."/>:<xsl:value-of select="position()"/>]'), xml, '[x3:1][x1:2][x4:3][x2:4]')
+    # a boolean key is converted to a string first ("true" -> NaN as a number): all equal
+    check('sort-bool-key', fe('<xsl:sort select="@k = \'a\'" data-type="number"/>'), xml, 'x1x2x3x4')
+    check('sort-bool-key-text', fe('<xsl:sort select="@k = \'a\'"/>'), xml, 'x1x3x2x4')
+    # empty key sorts first in text order
+    check('sort-empty-key', fe('<xsl:sort select="@zz"/><xsl:sort select="@n"/>'), xml, 'x2x1x4x3')
+    check_error('sort-bad-order', XSLTDynamicError, fe('<xsl:sort order="up"/>'), xml)
+
+
+CHAPTERS = ('<doc><chapter><title>c1</title><section><title>s11</title><subsection><title>ss111</title></subsection>'
+            '<subsection><title>ss112</title></subsection></section><section><title>s12</title></section></chapter>'
+            '<chapter><title>c2</title><note/><section><title>s21</title><note/><note/></section></chapter>'
+            '<appendix><title>a1</title><section><title>as1</title></section></appendix></doc>')
+
+
+def test_number():
+    # Rec 7.7 examples
+    check('rec-7.7-multiple', T('title', '<xsl:number level="multiple" count="chapter|section|subsection" format="1.1 "/>|')
+          + T('appendix//title', '<xsl:number level="multiple" count="appendix|section|subsection" format="A.1 "/>|', 'priority="1"')
+          + T('doc', '<xsl:apply-templates select="//title"/>'), CHAPTERS,
+          '1 |1.1 |1.1.1 |1.1.2 |1.2 |2 |2.1 |A |A.1 |')
+    check('rec-7.7-any-from', T('note', '<xsl:number level="any" from="chapter" count="note" format="(1) "/>')
+          + T('text()', ''), CHAPTERS, '(1) (2) (3) ')
+    check('rec-7.7-h4', T('H4', '<xsl:number level="any" from="H1" count="H2"/>.<xsl:number level="any" from="H2" count="H3"/>.<xsl:number level="any" from="H3" count="H4"/>;'),
+          '<d><H1/><H2/><H2/><H3/><H4/><H4/><H3/><H4/></d>', '2.1.1;2.1.2;2.2.1;')
+    check('rec-7.7-value-position', T('items', '<xsl:for-each select="item"><xsl:sort select="."/><p><xsl:number value="position()" format="1. "/><xsl:value-of select="."/></p></xsl:for-each>'),
+          '<items><item>b</item><item>c</item><item>a</item></items>', '<p>1. a</p><p>2. b</p><p>3. c</p>')
+    # default: level single, count = same type and name
+    check('number-default', T('b', '<xsl:number/>,') + T('text()', ''), '<a><b/><c/><b/>t<b/></a>', '1,2,3,')
+    check('number-default-text', T('text()', '<xsl:number/>'), '<a>x<b/>y<!--c-->z</a>', '123')
+    check('number-default-ns', sheet(T('*', '<xsl:number/><xsl:apply-templates/>')), '<a xmlns:p="urn:p" xmlns:q="urn:q"><p:b/><q:b/><b/><p:b/></a>', '11112', full=True)
+    check('number-single-ancestor', T('i', '<xsl:number count="g"/>,') + T('text()', ''), '<a><g><i/></g><g><x><i/></x></g><i/></a>', '1,2,,')
+    check('number-multiple-default-sep', T('i', '<xsl:number level="multiple" count="*" format="1"/>,'), '<a><g/><g><x/><i/></g></a>', '1.2.2,')
+    check('number-any', T('n', '<xsl:number level="any"/>,') + T('text()', ''), '<a><n/><b><n/></b><n><n/></n></a>', '1,2,3,')
+    check('number-any-count', T('n', '<xsl:number level="any" count="n|b"/>,') + T('text()', ''), '<a><n/><b><n/></b><m/></a>', '1,3,')
+    check('number-count-var', T('a', '<xsl:variable name="v" select="\'y\'"/><xsl:for-each select="b"><xsl:number count="b[@k=$v]"/>,</xsl:for-each>'),
+          '<a><b k="y"/><b k="n"/><b k="y"/></a>', '1,,2,')
+    check('number-single-from', T('i', '<xsl:number count="g" from="f"/>,') + T('text()', ''),
+          '<a><g/><g><f><g/><g><i/></g></f></g></a>', '2,')
+    # formats 7.7.1
+    def nv(value, attrs):
+        return T('/', '<xsl:number value="%s" %s/>' % (value, attrs))
+    for value, attrs, exp in (
+            ('1', 'format="a"', 'a'), ('26', 'format="a"', 'z'), ('27', 'format="a"', 'aa'), ('28', 'format="A"', 'AB'),
+            ('703', 'format="A"', 'AAA'), ('4', 'format="i"', 'iv'), ('1999', 'format="i"', 'mcmxcix'), ('14', 'format="I"', 'XIV'),
+            ('3999', 'format="I"', 'MMMCMXCIX'), ('5', 'format="01"', '05'), ('1234', 'format="001"', '1234'), ('7', 'format="001"', '007'),
+            ('5', 'format="[1]"', '[5]'), ('5', 'format=""', '5'), ('5', '', '5'), ('2.5', '', '3'), ('2.4', '', '2'),
+            ('1234567', 'grouping-separator="," grouping-size="3"', '1,234,567'), ('123', 'grouping-separator="," grouping-size="3"', '123'),
+            ('1234', 'grouping-separator="."', '1234'), ('1234', 'grouping-size="2"', '1234'),
+            ('12345', 'grouping-separator=" " grouping-size="2" format="(1)"', '(1 23 45)'),
+            ('3', 'format="{\'A\'}."', 'C.'),
+    ):
+        check('number-format %s %s' % (value, attrs), nv(value, attrs), '<d/>', exp)
+    check('number-format-multi', T('i', '<xsl:number level="multiple" count="*" format="A-1/i)"/>'), '<a><b/><b><c/><c/><c><i/></c></b></a>', 'A-2/iii/i)')
+    for lab, body in (('value-0', nv('0', '')), ('value-nan', nv('0 div 0', '')), ('value-neg', nv('-3', '')),
+                      ('format-punct-only', nv('1', 'format="."')), ('format-other-token', nv('1', 'format="&#x3B1;"')),
+                      ('roman-big', nv('4000', 'format="i"')),
+                      ('from-nothing', T('/', '<xsl:for-each select="//i"><xsl:number from="zz"/></xsl:for-each>')),
+                      ('from-self', T('/', '<xsl:for-each select="//i"><xsl:number from="i"/></xsl:for-each>')),
+                      ('any-zero', T('/', '<xsl:for-each select="//i"><xsl:number level="any" count="zz"/></xsl:for-each>')),
+                      ('any-from-nothing', T('/', '<xsl:for-each select="//i"><xsl:number level="any" from="zz"/></xsl:for-each>')),
+                      ('any-attr', T('/', '<xsl:for-each select="//@k"><xsl:number level="any"/></xsl:for-each>'))):
+        check_error('number-unsupported-' + lab, XSLTUnsupported, body, '<a><i k="1"/></a>')
+    # empty list, no punctuation: nothing
+    check('number-empty', T('i', '[<xsl:number count="zz"/>]'), '<i/>', '[]')
+    check_error('number-bad-level', XSLTStaticError, T('/', '<xsl:number level="all"/>'))
+
+
+def test_keys():
+    check('rec-12.2-idkey', '<xsl:key name="idkey" match="div" use="@id"/>'
+          + T('ref', '[<xsl:value-of select="key(\'idkey\',@to)/title"/>]') + T('text()', ''),
+          '<doc><div id="a"><title>A</title></div><div id="b"><title>B</title></div><ref to="b"/><ref to="a"/><ref to="c"/></doc>', '[B][A][]')
+    books = ('<lib><book><title>T1</title><author>X</author><author>Y</author></book><book><title>T2</title><author>Y</author></book>'
+             '<book><title>T3</title><author>Z</author></book><q>Y</q><q>Z</q></lib>')
+    k = '<xsl:key name="by-author" match="book" use="author"/>'
+    check('key-multivalue', k + T('lib', '<xsl:for-each select="key(\'by-author\',\'Y\')">[<xsl:value-of select="title"/>]</xsl:for-each>'), books, '[T1][T2]')
+    check('key-nodeset-arg', k + T('lib', '<xsl:for-each select="key(\'by-author\',q)">[<xsl:value-of select="title"/>]</xsl:for-each>|<xsl:value-of select="count(key(\'by-author\',q))"/>'),
+          books, '[T1][T2][T3]|3')
+    check('key-miss', k + T('lib', '<xsl:value-of select="count(key(\'by-author\',\'nobody\'))"/>'), books, '0')
+    check('key-two-decls', k + '<xsl:key name="by-author" match="book" use="title"/>'
+          + T('lib', '<xsl:value-of select="count(key(\'by-author\',\'T3\') | key(\'by-author\',\'Z\'))"/>,<xsl:value-of select="count(key(\'by-author\',\'T1\') | key(\'by-author\',\'Z\'))"/>'), books, '1,2')
+    check('key-number-use', '<xsl:key name="n" match="book" use="count(author)"/>' + T('lib', '<xsl:value-of select="key(\'n\', 2)/title"/>,<xsl:value-of select="count(key(\'n\', 1))"/>'), books, 'T1,2')
+    check('key-attr-match', '<xsl:key name="a" match="@*" use="name()"/>' + T('d', '<xsl:for-each select="key(\'a\',\'y\')">[<xsl:value-of select="."/>]</xsl:for-each>'),
+          '<d><e x="1" y="2"/><f y="3"/></d>', '[2][3]')
+    check('key-in-pattern', k + T("key('by-author','Y')/title", '{<xsl:value-of select="."/>}') + T('text()', ''), books, '{T1}{T2}')
+    check('key-qname', sheet('<xsl:key name="p:k" match="e" use="@v"/>' + T('d', '<xsl:value-of xmlns:q="urn:p" select="count(key(\'q:k\',\'1\'))"/>'), 'xmlns:p="urn:p"'),
+          '<d><e v="1"/><e v="1"/></d>', '2', full=True)
+    # key() works in the document of the context node (Rec 12.2 bibref example)
+    files = {'mem:/bib.xml': '<bib><entry name="XSLT"><t>XSL Transformations</t></entry><entry name="XPath"><t>XML Path Language</t></entry></bib>'}
+    check('rec-12.2-bibref', '<xsl:key name="bib" match="entry" use="@name"/>'
+          + T('bibref', '<xsl:variable name="name" select="."/><xsl:for-each select="document(\'bib.xml\')"><xsl:apply-templates select="key(\'bib\',$name)"/></xsl:for-each>')
+          + T('entry', '[<xsl:value-of select="t"/>]'),
+          '<doc><bibref>XSLT</bibref>;<bibref>none</bibref>;<bibref>XPath</bibref><entry name="XSLT"><t>LOCAL</t></entry></doc>',
+          '[XSL Transformations];;[XML Path Language][LOCAL]', files=files)
+    check('key-context-doc', '<xsl:key name="bib" match="entry" use="@name"/>'
+          + T('doc', '<xsl:value-of select="key(\'bib\',\'XSLT\')/t"/>|<xsl:value-of select="count(key(\'bib\',\'XPath\'))"/>|<xsl:for-each select="document(\'bib.xml\')"><xsl:value-of select="count(key(\'bib\',\'XPath\'))"/></xsl:for-each>'),
+          '<doc><entry name="XSLT"><t>LOCAL</t></entry></doc>', 'LOCAL|0|1', files=files)
+    check_error('key-var-in-use', XSLTStaticError, '<xsl:variable name="v" select="1"/><xsl:key name="k" match="a" use="$v"/>')
+    check_error('key-var-in-match', XSLTStaticError, '<xsl:variable name="v" select="1"/><xsl:key name="k" match="a[$v]" use="."/>')
+    check_error('key-missing-attr', XSLTStaticError, '<xsl:key name="k" match="a"/>')
+    check_error('key-unknown', XSLTUnsupported, T('/', '<xsl:value-of select="count(key(\'nokey\',1))"/>'))
+
+
+def ns_of(r, path):
+    n = r
+    for i in path:
+        n = [c for c in n.children if c.kind == 'element'][i]
+    return n.namespaces
+
+
+def check_ns(label, xsl, xml, path, expected, full=False, files=None):
+    COUNT[0] += 1
+    try:
+        r = transform(xsl, xml, full=full, files=files)
+    except Exception as e:                                       # noqa
+        fail('%s: raised %s: %s' % (label, type(e).__name__, e))
+        return
+    got = ns_of(r, path)
+    if got != expected:
+        fail('%s: namespaces expected %r got %r' % (label, expected, got))
+
+
+def test_namespaces():
+    # Rec 7.1.1 namespace-alias example
+    st = sheet('<xsl:namespace-alias stylesheet-prefix="axsl" result-prefix="xsl"/>'
+               + T('/', '<axsl:stylesheet><xsl:apply-templates/></axsl:stylesheet>')
+               + T('block', '<axsl:template match="{.}"><fo:block><axsl:apply-templates/></fo:block></axsl:template>'),
+               'xmlns:fo="http://www.w3.org/1999/XSL/Format" xmlns:axsl="http://www.w3.org/1999/XSL/TransformAlias"')
+    check('rec-7.1.1-alias', st, '<elements><block>p</block><block>h1</block></elements>',
+          '<xsl:stylesheet xmlns:xsl="http://www.w3.org/1999/XSL/Transform" xmlns:fo="http://www.w3.org/1999/XSL/Format">'
+          '<xsl:template match="p"><fo:block><xsl:apply-templates/></fo:block></xsl:template>'
+          '<xsl:template match="h1"><fo:block><xsl:apply-templates/></fo:block></xsl:template></xsl:stylesheet>', full=True)
+    check_ns('alias-nsnodes', st, '<elements/>', [0], {'fo': 'http://www.w3.org/1999/XSL/Format', 'axsl': X.XSL_NS}, full=True)
+    # alias applies to attributes and with #default
+    st2 = sheet('<xsl:namespace-alias stylesheet-prefix="#default" result-prefix="r"/><xsl:namespace-alias stylesheet-prefix="a" result-prefix="r"/>'
+                + T('/', '<o a:k="1" k="2"><a:i/></o>'), 'xmlns="urn:d" xmlns:a="urn:a" xmlns:r="urn:r"')
+    check('alias-default-attr', st2, '<x/>', '<o xmlns="urn:r" xmlns:r="urn:r" r:k="1" k="2"><r:i/></o>', full=True)
+    # alias by import precedence
+    files = {'mem:/i.xsl': sheet('<xsl:namespace-alias stylesheet-prefix="a" result-prefix="b"/>', 'xmlns:a="urn:a" xmlns:b="urn:low"')}
+    check('alias-precedence', sheet('<xsl:import href="i.xsl"/><xsl:namespace-alias stylesheet-prefix="a" result-prefix="b"/>'
+                                    + T('/', '<a:o/>'), 'xmlns:a="urn:a" xmlns:b="urn:high"'), '<x/>', '<o xmlns="urn:high"/>', full=True, files=files)
+    check('alias-imported-only', sheet('<xsl:import href="i.xsl"/>' + T('/', '<a:o/>'), 'xmlns:a="urn:a"'), '<x/>', '<o xmlns="urn:low"/>', full=True, files=files)
+    check_error('alias-unbound', XSLTStaticError, '<xsl:namespace-alias stylesheet-prefix="zz" result-prefix="xsl"/>')
+    check_error('alias-default-none', XSLTUnsupported, '<xsl:namespace-alias stylesheet-prefix="#default" result-prefix="xsl"/>')
+    # namespace nodes of literal result elements (7.1.1)
+    st3 = sheet(T('/', '<o xmlns:c="urn:c"><i xmlns:d="urn:d" xmlns:c="urn:c2"/><xsl:element name="e"/><xsl:copy-of select="*"/><xsl:for-each select="*"><xsl:copy/></xsl:for-each></o>'),
+                'xmlns:a="urn:a" xmlns:b="urn:b"')
+    src = '<x xmlns:s="urn:s" xmlns="urn:sd"><y xmlns:t="urn:t"/></x>'
+    check_ns('lre-ns', st3, src, [0], {'a': 'urn:a', 'b': 'urn:b', 'c': 'urn:c'}, full=True)
+    check_ns('lre-ns-inner', st3, src, [0, 0], {'a': 'urn:a', 'b': 'urn:b', 'c': 'urn:c2', 'd': 'urn:d'}, full=True)
+    check_ns('element-ns', st3, src, [0, 1], {}, full=True)
+    check_ns('copy-of-ns', st3, src, [0, 2], {'s': 'urn:s', '': 'urn:sd'}, full=True)
+    check_ns('copy-of-ns-child', st3, src, [0, 2, 0], {'s': 'urn:s', '': 'urn:sd', 't': 'urn:t'}, full=True)
+    check_ns('copy-ns', st3, src, [0, 3], {'s': 'urn:s', '': 'urn:sd'}, full=True)
+    # exclude-result-prefixes
+    st4 = sheet(T('/', '<o xmlns:c="urn:c"><i xsl:exclude-result-prefixes="b c"><j/></i><k/></o>'),
+                'xmlns:a="urn:a" xmlns:b="urn:b" xmlns="urn:dd" exclude-result-prefixes="a #default"')
+    check_ns('exclude-sheet', st4, '<x/>', [0], {'b': 'urn:b', 'c': 'urn:c'}, full=True)
+    check_ns('exclude-lre', st4, '<x/>', [0, 0], {}, full=True)
+    check_ns('exclude-lre-subtree', st4, '<x/>', [0, 0, 0], {}, full=True)
+    check_ns('exclude-lre-sibling', st4, '<x/>', [0, 1], {'b': 'urn:b', 'c': 'urn:c'}, full=True)
+    check('exclude-names-kept', st4, '<x/>', '<o xmlns="urn:dd"><i><j/></i><k/></o>', full=True)
+    check_error('exclude-unbound', XSLTStaticError, '<xsl:stylesheet version="1.0" %s exclude-result-prefixes="zz"/>' % XSLNS, full=True)
+    check_error('exclude-default-none', XSLTStaticError, '<xsl:stylesheet version="1.0" %s exclude-result-prefixes="#default"/>' % XSLNS, full=True)
+    # exclusion is by namespace URI
+    st5 = sheet(T('/', '<o xmlns:a2="urn:a"/>'), 'xmlns:a="urn:a" exclude-result-prefixes="a"')
+    check_ns('exclude-by-uri', st5, '<x/>', [0], {}, full=True)
+    # name tests in expressions ignore the default namespace of the stylesheet
+    check('default-ns-not-in-xpath', sheet(T('a', 'A') + T('d:a', 'DA'), 'xmlns="urn:dflt" xmlns:d="urn:dflt"'),
+          '<r><a/><a xmlns="urn:dflt"/></r>', 'ADA', full=True)
+
+
+def test_attribute_sets():
+    # Rec 7.1.4 example
+    check('rec-7.1.4', sheet(T('chapter/heading', '<fo:block quadding="start" xsl:use-attribute-sets="title-style"><xsl:apply-templates/></fo:block>')
+                             + '<xsl:attribute-set name="title-style"><xsl:attribute name="font-size">12pt</xsl:attribute><xsl:attribute name="font-weight">bold</xsl:attribute></xsl:attribute-set>',
+                             'xmlns:fo="urn:fo"'),
+          '<chapter><heading>H</heading></chapter>', '<fo:block xmlns:fo="urn:fo" quadding="start" font-size="12pt" font-weight="bold">H</fo:block>', full=True)
+    sets = ('<xsl:attribute-set name="base"><xsl:attribute name="a">base-a</xsl:attribute><xsl:attribute name="b">base-b</xsl:attribute></xsl:attribute-set>'
+            '<xsl:attribute-set name="derived" use-attribute-sets="base"><xsl:attribute name="b">derived-b</xsl:attribute><xsl:attribute name="c"><xsl:value-of select="name()"/></xsl:attribute></xsl:attribute-set>'
+            '<xsl:attribute-set name="other"><xsl:attribute name="a">other-a</xsl:attribute></xsl:attribute-set>')
+    check('attrset-nesting', sets + T('d', '<o xsl:use-attribute-sets="derived"/>'), '<d/>', '<o a="base-a" b="derived-b" c="d"/>')
+    check('attrset-order', sets + T('d', '<o xsl:use-attribute-sets="derived other"/><o xsl:use-attribute-sets="other derived"/>'), '<d/>',
+          '<o a="other-a" b="derived-b" c="d"/><o a="base-a" b="derived-b" c="d"/>')
+    check('attrset-lre-overrides', sets + T('d', '<o b="lre" xsl:use-attribute-sets="derived"><xsl:attribute name="c">instr</xsl:attribute></o>'), '<d/>',
+          '<o a="base-a" b="lre" c="instr"/>')
+    check('attrset-element-copy', sets + T('d', '<xsl:element name="e" use-attribute-sets="other"><xsl:attribute name="z">1</xsl:attribute></xsl:element><xsl:copy use-attribute-sets="derived"/>'), '<d k="v"/>',
+          '<e a="other-a" z="1"/><d a="base-a" b="derived-b" c="d"/>')
+    check('attrset-copy-nonelement', sets + T('d', '<xsl:for-each select="text()"><xsl:copy use-attribute-sets="derived"/></xsl:for-each>'), '<d>t</d>', 't', recoveries=[])
+    # merging of same-named sets, by import precedence
+    files = {'mem:/i.xsl': sheet('<xsl:attribute-set name="s"><xsl:attribute name="a">imp-a</xsl:attribute><xsl:attribute name="b">imp-b</xsl:attribute></xsl:attribute-set>')}
+    check('attrset-merge', '<xsl:import href="i.xsl"/><xsl:attribute-set name="s"><xsl:attribute name="b">main-b</xsl:attribute><xsl:attribute name="c">main-c</xsl:attribute></xsl:attribute-set>'
+          + T('d', '<o xsl:use-attribute-sets="s"/>'), '<d/>', '<o a="imp-a" b="main-b" c="main-c"/>', files=files, recoveries=[])
+    check('attrset-merge-same-prec', '<xsl:attribute-set name="s"><xsl:attribute name="b">first</xsl:attribute></xsl:attribute-set><xsl:attribute-set name="s"><xsl:attribute name="b">second</xsl:attribute><xsl:attribute name="c">c</xsl:attribute></xsl:attribute-set>'
+          + T('d', '<o xsl:use-attribute-sets="s"/>'), '<d/>', '<o b="second" c="c"/>', recoveries=['7.1.4-attribute-set-conflict'])
+    # only top-level variables are visible; evaluated with the current node each time
+    check('attrset-context', '<xsl:variable name="g" select="\'G\'"/><xsl:attribute-set name="s"><xsl:attribute name="n"><xsl:value-of select="concat($g, @k, position())"/></xsl:attribute></xsl:attribute-set>'
+          + T('d', '<xsl:for-each select="e"><o xsl:use-attribute-sets="s"/></xsl:for-each>'), '<d><e k="x"/><e k="y"/></d>', '<o n="Gx1"/><o n="Gy2"/>')
+    check_error('attrset-local-var', XSLTStaticError, '<xsl:attribute-set name="s"><xsl:attribute name="n"><xsl:value-of select="$v"/></xsl:attribute></xsl:attribute-set>'
+                + T('d', '<xsl:variable name="v" select="1"/><o xsl:use-attribute-sets="s"/>'))
+    check_error('attrset-circular', XSLTStaticError, '<xsl:attribute-set name="s" use-attribute-sets="t"/><xsl:attribute-set name="t" use-attribute-sets="s"/>')
+    check_error('attrset-self', XSLTStaticError, '<xsl:attribute-set name="s" use-attribute-sets="s"/>')
+    check_error('attrset-bad-child', XSLTStaticError, '<xsl:attribute-set name="s"><o/></xsl:attribute-set>')
+    check_error('attrset-undeclared', XSLTUnsupported, T('d', '<o xsl:use-attribute-sets="nope"/>'))
+
+
+WS_DOC = '<doc> <a> <b/> </a> <p xml:space="preserve"> <q> </q> <r xml:space="default"> <s/> </r></p> <t>x </t></doc>'
+
+
+def test_whitespace():
+    cnt = T('/', '<xsl:value-of select="count(//text())"/>')
+    check('ws-none', cnt, WS_DOC, '11')
+    check('ws-strip-all', '<xsl:strip-space elements="*"/>' + cnt, WS_DOC, '4')
+    check('ws-strip-all-preserve-a', '<xsl:strip-space elements="*"/><xsl:preserve-space elements="a"/>' + cnt, WS_DOC, '6')
+    check('ws-preserve-then-strip-order-irrelevant', '<xsl:preserve-space elements="a"/><xsl:strip-space elements="*"/>' + cnt, WS_DOC, '6', recoveries=[])
+    check('ws-strip-names', '<xsl:strip-space elements="a  doc"/>' + cnt, WS_DOC, '6')
+    check('ws-conflict', '<xsl:strip-space elements="a"/><xsl:preserve-space elements="a"/>' + cnt, WS_DOC, '11', recoveries=['3.4-strip-preserve-conflict'])
+    check('ws-conflict-2', '<xsl:preserve-space elements="a"/><xsl:strip-space elements="a"/>' + cnt, WS_DOC, '9', recoveries=['3.4-strip-preserve-conflict'])
+    files = {'mem:/i.xsl': sheet('<xsl:strip-space elements="a doc"/>')}
+    check('ws-import-precedence', '<xsl:import href="i.xsl"/><xsl:preserve-space elements="*"/>' + cnt, WS_DOC, '11', files=files)
+    files2 = {'mem:/i.xsl': sheet('<xsl:preserve-space elements="a"/>')}
+    check('ws-import-precedence-2', '<xsl:import href="i.xsl"/><xsl:strip-space elements="*"/>' + cnt, WS_DOC, '4', files=files2)
+    check('ws-ns-wildcard', sheet('<xsl:strip-space elements="n:*"/><xsl:preserve-space elements="n:k"/>' + cnt, 'xmlns:n="urn:n"'),
+          '<n:d xmlns:n="urn:n"> <n:k> </n:k> <e> </e></n:d>', '2', full=True)
+    # unprefixed names in elements= are in no namespace
+    check('ws-default-ns', sheet('<xsl:strip-space elements="d"/>' + cnt, 'xmlns="urn:n"'), '<d xmlns="urn:n"> <e/> </d>', '2', full=True)
+    # stripping changes positions seen by the stylesheet
+    check('ws-positions', '<xsl:strip-space elements="doc"/>' + T('doc', '<xsl:for-each select="node()"><xsl:value-of select="name()"/><xsl:value-of select="position()"/>/<xsl:value-of select="last()"/>,</xsl:for-each>'),
+          WS_DOC, 'a1/3,p2/3,t3/3,')
+    # applies to document() too
+    files3 = {'mem:/w.xml': '<a> <b/> </a>'}
+    check('ws-document', '<xsl:strip-space elements="a"/>' + T('/', '<xsl:value-of select="count(document(\'w.xml\')//text())"/>,<xsl:value-of select="count(//text())"/>'),
+          '<a> <c> </c></a>', '0,1', files=files3)
+    # the stylesheet: whitespace-only text nodes are stripped except in xsl:text / xml:space=preserve
+    check('ws-stylesheet', T('/', ' <o> <xsl:text> </xsl:text> <i/>\n</o> '), '<x/>', '<o> <i/></o>')
+    check('ws-stylesheet-preserve', T('/', '<o xml:space="preserve"> <i xml:space="default"> <j/> </i> <xsl:value-of select="1"/></o>'), '<x/>',
+          '<o xml:space="preserve"> <i xml:space="default"><j/></i> 1</o>')
+    check('ws-stylesheet-nonws', T('/', '<o> a <i/> </o>'), '<x/>', '<o> a <i/></o>')
+    check('ws-stylesheet-comment-split', T('/', '<o> <!-- c -->x</o>'), '<x/>', '<o>x</o>')
+    check('ws-stylesheet-charref', T('/', '<o>&#32;<i/>&#160;</o>'), '<x/>', '<o><i/>&#160;</o>')
+
+
+def test_functions():
+    files = {'mem:/sub/a.xml': '<a><ref href="b.xml"/><v>A</v></a>', 'mem:/sub/b.xml': '<b><v>SUB-B</v></b>', 'mem:/b.xml': '<b><v>TOP-B</v></b>',
+             'mem:/data/b.xml': '<b><v>DATA-B</v></b>'}
+    src = '<doc><ref href="b.xml"/><ref href="../sub/a.xml"/></doc>'
+    du = 'mem:/data/doc.xml'
+    # string argument: relative to the stylesheet module; node-set: relative to the node's document
+    check('document-string', T('/', '<xsl:value-of select="document(\'b.xml\')/b/v"/>'), src, 'TOP-B', files=files, doc_uri=du)
+    check('document-nodeset', T('/', '<xsl:value-of select="document(doc/ref[1]/@href)/b/v"/>'), src, 'DATA-B', files=files, doc_uri=du)
+    check('document-nodeset-multi', T('/', '<xsl:for-each select="document(doc/ref/@href)">[<xsl:value-of select="name(*)"/>]</xsl:for-each>'), src, '[b][a]', files=files, doc_uri=du)
+    check('document-chain', T('/', '<xsl:value-of select="document(document(doc/ref[2]/@href)/a/ref/@href)/b/v"/>'), src, 'SUB-B', files=files, doc_uri=du)
+    check('document-2arg', T('/', '<xsl:value-of select="document(\'b.xml\', /)/b/v"/>,<xsl:value-of select="document(\'b.xml\', document(\'sub/a.xml\'))/b/v"/>,<xsl:value-of select="document(doc/ref[1]/@href, document(\'sub/a.xml\')/a)/b/v"/>'),
+          src, 'DATA-B,SUB-B,SUB-B', files=files, doc_uri=du)
+    check('document-same', T('/', '<xsl:value-of select="count(document(\'b.xml\') | document(\'sub/../b.xml\'))"/>,<xsl:value-of select="generate-id(document(\'b.xml\')) = generate-id(document(\'b.xml\'))"/>,'
+                             '<xsl:value-of select="count(document(\'b.xml\') | document(\'sub/b.xml\'))"/>,<xsl:value-of select="count(document(\'doc.xml\', /) | /)"/>'),
+          src, '1,true,2,1', files=files, doc_uri=du)
+    check('document-missing', T('/', '<xsl:value-of select="count(document(\'nope.xml\'))"/>'), src, '0', files=files, recoveries=['12.1-document-unretrievable'])
+    check('document-self', T('/', '<xsl:value-of select="count(document(\'\')/xsl:stylesheet/xsl:template)"/>,<xsl:value-of xmlns:u="urn:u" select="document(\'\')/*/u:data"/>')
+          + '<u:data xmlns:u="urn:u">D</u:data>' + T('nomatch', ''), src, '2,D', files=files)
+    files_i = {'mem:/lib/i.xsl': sheet(T('/', '<xsl:value-of select="document(\'x.xml\')/*"/>')), 'mem:/lib/x.xml': '<x>LIB</x>', 'mem:/x.xml': '<x>TOP</x>'}
+    check('document-base-of-import', '<xsl:import href="lib/i.xsl"/>', src, 'LIB', files=files_i)
+    check_error('document-fragment', XSLTUnsupported, T('/', '<xsl:value-of select="count(document(\'b.xml#f\'))"/>'), src, files=files)
+    # Rec 12.4 current()
+    check('rec-12.4-current', T('ref', '[<xsl:value-of select="//glossary/item[@name=current()/@ref]"/>|<xsl:value-of select="//glossary/item[@name=./@ref]"/>]') + T('text()', ''),
+          '<d><ref ref="b"/><glossary><item name="a" ref="a">AA</item><item name="b">BB</item></glossary></d>', '[BB|AA]')
+    # generate-id
+    check('generate-id', T('d', '<xsl:value-of select="generate-id(a) = generate-id(a[1])"/>,<xsl:value-of select="generate-id(a) = generate-id(a[2])"/>,<xsl:value-of select="generate-id(zz) = \'\'"/>,'
+                           '<xsl:value-of select="generate-id() = generate-id(.)"/>,<xsl:value-of select="generate-id(a/@k) = generate-id(a)"/>,<xsl:value-of select="count(a[generate-id() = generate-id(current()/a[2])])"/>'),
+          '<d><a k="1"/><a/></d>', 'true,false,true,true,false,1')
+    # Muenchian grouping: key + generate-id
+    check('muenchian', '<xsl:key name="g" match="i" use="@c"/>' + T('l', '<xsl:for-each select="i[generate-id() = generate-id(key(\'g\', @c)[1])]"><xsl:sort select="@c"/>{<xsl:value-of select="@c"/>:<xsl:for-each select="key(\'g\', @c)"><xsl:value-of select="."/></xsl:for-each>}</xsl:for-each>'),
+          '<l><i c="y">1</i><i c="x">2</i><i c="y">3</i><i c="x">4</i><i c="z">5</i></l>', '{x:24}{y:13}{z:5}')
+    # id()
+    check('id', T('/', '<xsl:value-of select="id(\'b\')/@v"/><xsl:value-of select="count(id(\'a b zz\'))"/>') + T("id('a')", 'IDA'),
+          '<!DOCTYPE d [<!ATTLIST e id ID #IMPLIED>]><d><e id="a" v="1"/><e id="b" v="2"/></d>', '22')
+    check('id-pattern', T("id('a')", 'IDA') + T('text()', ''), '<!DOCTYPE d [<!ATTLIST e id ID #IMPLIED>]><d><e id="a" v="1"/><e id="b" v="2">t</e></d>', 'IDA')
+    check('unparsed-entity-uri', T('/', '<xsl:value-of select="unparsed-entity-uri(\'pic\')"/>|<xsl:value-of select="unparsed-entity-uri(\'nope\')"/>'),
+          '<!DOCTYPE d [<!NOTATION gif SYSTEM "gif"><!ENTITY pic SYSTEM "http://example.org/p.gif" NDATA gif>]><d/>', 'http://example.org/p.gif|')
+    # EXSLT object-type
+    check('object-type', sheet(T('/', '<xsl:variable name="r"><x/></xsl:variable><xsl:value-of select="e:object-type($r)"/>,<xsl:value-of select="e:object-type(e:node-set($r))"/>,<xsl:value-of select="e:object-type(1)"/>'),
+                               'xmlns:e="http://exslt.org/common"'), '<d/>', 'RTF,node-set,number', full=True)
+
+
+def test_output():
+    COUNT[0] += 1
+    files = {'mem:/i.xsl': sheet('<xsl:output method="html" indent="yes" encoding="latin1" cdata-section-elements="a"/>')}
+    r = transform('<xsl:import href="i.xsl"/><xsl:output method="xml" omit-xml-declaration="yes" cdata-section-elements="b"/>' + T('/', '<o/>'), '<d/>', files=files)
+    exp = {'method': 'xml', 'indent': 'yes', 'encoding': 'latin1', 'omit-xml-declaration': 'yes',
+           'cdata-section-elements': [('', 'a'), ('', 'b')], 'effective-method': 'xml'}
+    if r.output != exp:
+        fail('output merge: %r' % (r.output,))
+    COUNT[0] += 1
+    r = transform(T('/', ' <HTML/>'), '<d/>')
+    if r.output.get('effective-method') != 'html':
+        fail('default html method: %r' % (r.output,))
+    COUNT[0] += 1
+    r = transform(T('/', 'x<html/>'), '<d/>')
+    if r.output.get('effective-method') != 'xml':
+        fail('default xml method: %r' % (r.output,))
+    COUNT[0] += 1
+    r = transform('<xsl:output indent="yes"/><xsl:output indent="no"/>' + T('/', '<o/>'), '<d/>')
+    if r.output.get('indent') != 'no' or r.recoveries != ['16-output-conflict']:
+        fail('output conflict: %r %r' % (r.output, r.recoveries))
+
+
+def test_perf():
+    xsl = (T('/', '<out><xsl:apply-templates/></out>') + T('doc', '<d n="{count(*)}"><xsl:apply-templates select="*"><xsl:sort select="@k"/></xsl:apply-templates></d>')
+           + T('a', '<A><xsl:number/><xsl:apply-templates/></A>') + T('a[@k > 3]', '<A3><xsl:value-of select="@k"/><xsl:apply-templates/></A3>')
+           + T('b', '<xsl:copy><xsl:copy-of select="@*"/><xsl:apply-templates/></xsl:copy>') + T('b/c', '<xsl:variable name="v" select="count(ancestor::*)"/><C d="{$v}"><xsl:apply-templates/></C>')
+           + T('text()', '<xsl:value-of select="normalize-space()"/>') + T('c', 'c') + T('@*', '') + T('comment()', '<xsl:comment>x</xsl:comment>'))
+    parts = []
+    for i in range(5):
+        parts.append('<a k="%d">t%d<b x="1"><c>u</c><c/></b><!--c--></a><b>v</b>' % (i, i))
+    xml = '<doc>' + ''.join(parts) + '</doc>'
+    res = make_resolver({})
+    t0 = time.perf_counter()
+    n = 40
+    for _ in range(n):
+        s = X.compile_stylesheet(sheet(xsl), 'mem:/p.xsl', res)
+    t1 = time.perf_counter()
+    d = model.parse_document(xml, 'mem:/d.xml')
+    for _ in range(n):
+        X.transform(s, d)
+    t2 = time.perf_counter()
+    print('performance: compile %.2f ms, transform %.2f ms (document of %d nodes, 10 templates)'
+          % (1000 * (t1 - t0) / n, 1000 * (t2 - t1) / n, len(d.nodes())))
 
 
 def main():
